@@ -239,6 +239,13 @@ pub proof fn lemma_es_same_trans(a: Expression, b: Expression, c: Expression)
     }
 }
 
+pub broadcast proof fn lemma_es_same_trans_b(a: Expression, b: Expression, c: Expression)
+    requires #[trigger] es_same(a, b), #[trigger] es_same(b, c),
+    ensures es_same(a, c),
+{
+    lemma_es_same_trans(a, b, c);
+}
+
 pub open spec fn es_mk_bin(op: BinOpType, l: Expression, r: Expression) -> Expression {
     Expression::BinOp { op, lhs: Box::new(l), rhs: Box::new(r) }
 }
@@ -560,6 +567,7 @@ pub proof fn lemma_es_entry_const_bits(e: Expression)
             _ => true,
         },
 {
+    reveal_with_fuel(es_wf, 2);
     match e {
         Expression::BinOp { op, lhs, rhs } => {
             if let Expression::Const(c) = *lhs { assert(e == es_bin_c(op, c, *rhs, true)); lemma_es_rules_const_bits(op, c, *rhs, true); }
@@ -729,6 +737,687 @@ pub proof fn lemma_es_entry_sborrow(e: Expression)
                 let z = match *rhs { Expression::BinOp { op: o, lhs: l, rhs: r } => (*r)->Const_0, _ => bv(8, 0) };
                 assert(e == es_two(op, es_lt0(a, b, z), es_mk_bin(BinOpType::IntSBorrow, a, b), false));
                 lemma_es_rules_sborrow(op, a, b, z, false);
+            }
+        },
+        _ => {},
+    }
+}
+
+// ---- (F) arithmetic with constants ---------------------------------------------------------------------------------------
+
+pub proof fn lemma_esv_assoc(a: Bitvector, c1: Bitvector, c2: Bitvector)
+    requires a.wf(), c1.wf(), c2.wf(), a.w@ == c1.w@, a.w@ == c2.w@,
+    ensures
+        bv_sub(bv_sub(a, c1), c2) == bv_sub(a, bv_add(c1, c2)),
+        bv_add(bv_add(a, c1), c2) == bv_add(a, bv_add(c1, c2)),
+        bv_add(bv_add(c1, a), c2) == bv_add(a, bv_add(c1, c2)),
+        bv_add(c1, c2).wf(), bv_sub(a, c1).wf(), bv_add(a, c1).wf(), bv_add(c1, a).wf(),
+{
+    let w = a.w@;
+    let (ua, u1, u2) = (a.u@ as int, c1.u@ as int, c2.u@ as int);
+    lemma_trunc_id(w, ua); lemma_trunc_id(w, u1); lemma_trunc_id(w, u2);
+    lemma_trunc_range(w, u1 + u2); lemma_trunc_range(w, ua - u1); lemma_trunc_range(w, ua + u1); lemma_trunc_range(w, u1 + ua);
+    // (a - c1) - c2
+    lemma_trunc_sub(w, ua - u1, u2);
+    lemma_trunc_sub(w, ua, u1 + u2);
+    assert((ua - u1) - u2 == ua - (u1 + u2));
+    // (a + c1) + c2
+    lemma_trunc_add(w, ua + u1, u2);
+    lemma_trunc_add(w, ua, u1 + u2);
+    assert((ua + u1) + u2 == ua + (u1 + u2));
+    // (c1 + a) + c2
+    lemma_trunc_add(w, u1 + ua, u2);
+    assert((u1 + ua) + u2 == ua + (u1 + u2));
+}
+
+pub proof fn lemma_esv_addsub(a: Bitvector, b: Bitvector)
+    requires a.wf(), b.wf(), a.w@ == b.w@,
+    ensures es_bin(BinOpType::IntAdd, a, b) == Some(bv_add(a, b)), es_bin(BinOpType::IntSub, a, b) == Some(bv_sub(a, b)),
+{
+}
+
+pub open spec fn es_cv(op: BinOpType, c1: Bitvector, c2: Bitvector) -> Expression {
+    Expression::Const(pcode_bin(op, c1, c2)->Some_0)
+}
+
+pub proof fn lemma_es_rules_fold(op: BinOpType, c1: Bitvector, c2: Bitvector)
+    requires es_wf(es_mk_bin(op, Expression::Const(c1), Expression::Const(c2))), op is IntAdd || op is IntSub,
+    ensures es_same(es_mk_bin(op, Expression::Const(c1), Expression::Const(c2)), es_cv(op, c1, c2)),
+        c1.wf() && c2.wf() && c1.w@ == c2.w@,
+{
+    let old = es_mk_bin(op, Expression::Const(c1), Expression::Const(c2));
+    let new = es_cv(op, c1, c2);
+    reveal_with_fuel(es_wf, 2); reveal_with_fuel(es_eval, 2); reveal_with_fuel(expr_bytes, 2);
+    lemma_es_bin_wf_arith(op, c1, c2);
+    assert forall |env: EsEnv| #[trigger] es_val_kept(old, new, env) by {}
+}
+
+/// kind 0: (x - c1) - c2 = x - (c1 + c2);  kind 1: (x + c1) + c2 = x + (c1 + c2);  kind 2: (c1 + x) + c2 = x + (c1 + c2)
+pub open spec fn es_assoc_old(kind: int, x: Expression, c1: Bitvector, c2: Bitvector) -> Expression {
+    if kind == 0 { es_mk_bin(BinOpType::IntSub, es_mk_bin(BinOpType::IntSub, x, Expression::Const(c1)), Expression::Const(c2)) }
+    else if kind == 1 { es_mk_bin(BinOpType::IntAdd, es_mk_bin(BinOpType::IntAdd, x, Expression::Const(c1)), Expression::Const(c2)) }
+    else { es_mk_bin(BinOpType::IntAdd, es_mk_bin(BinOpType::IntAdd, Expression::Const(c1), x), Expression::Const(c2)) }
+}
+pub open spec fn es_assoc_new(kind: int, x: Expression, c1: Bitvector, c2: Bitvector) -> Expression {
+    es_mk_bin(if kind == 0 { BinOpType::IntSub } else { BinOpType::IntAdd }, x, es_cv(BinOpType::IntAdd, c1, c2))
+}
+pub proof fn lemma_es_assoc_widths(kind: int, x: Expression, c1: Bitvector, c2: Bitvector)
+    requires es_wf(es_assoc_old(kind, x, c1, c2)), 0 <= kind <= 2,
+    ensures c1.wf() && c2.wf() && c1.w@ == c2.w@ && es_wf(x) && expr_bytes(x) * 8 == c1.w@,
+{
+    reveal_with_fuel(es_wf, 3); reveal_with_fuel(expr_bytes, 3);
+    lemma_es_wf_bytes(x);
+}
+
+pub proof fn lemma_es_rules_assoc(kind: int, x: Expression, c1: Bitvector, c2: Bitvector)
+    requires es_wf(es_assoc_old(kind, x, c1, c2)), 0 <= kind <= 2,
+    ensures es_same(es_assoc_old(kind, x, c1, c2), es_assoc_new(kind, x, c1, c2)),
+        c1.wf() && c2.wf() && c1.w@ == c2.w@,
+{
+    hide(pcode_bin);
+    let old = es_assoc_old(kind, x, c1, c2);
+    let new = es_assoc_new(kind, x, c1, c2);
+    lemma_es_assoc_widths(kind, x, c1, c2);
+    lemma_esv_addsub(c1, c2);
+    let (k1, k2) = (Expression::Const(c1), Expression::Const(c2));
+    let kv = es_cv(BinOpType::IntAdd, c1, c2);
+    let oop = if kind == 0 { BinOpType::IntSub } else { BinOpType::IntAdd };
+    let inner = if kind == 2 { es_mk_bin(oop, k1, x) } else { es_mk_bin(oop, x, k1) };
+    let e0 = |v: Variable| bv(8, 0);
+    lemma_es_unfold_bin(oop, x, k1, e0); lemma_es_unfold_bin(oop, k1, x, e0); lemma_es_unfold_bin(oop, inner, k2, e0); lemma_es_unfold_bin(oop, x, kv, e0);
+    lemma_es_wf_bytes(x);
+    lemma_es_bin_wf_arith(BinOpType::IntAdd, c1, c2);
+    assert forall |env: EsEnv| #[trigger] es_val_kept(old, new, env) by {
+        lemma_es_unfold_bin(oop, x, k1, env); lemma_es_unfold_bin(oop, k1, x, env); lemma_es_unfold_bin(oop, inner, k2, env); lemma_es_unfold_bin(oop, x, kv, env);
+        if es_eval(old, env) is Some {
+            let a = es_eval(x, env)->Some_0;
+            lemma_es_eval_wf(x, env);
+            lemma_esv_assoc(a, c1, c2);
+            lemma_esv_addsub(a, c1); lemma_esv_addsub(c1, a); lemma_esv_addsub(a, bv_add(c1, c2));
+            lemma_esv_addsub(bv_sub(a, c1), c2); lemma_esv_addsub(bv_add(a, c1), c2); lemma_esv_addsub(bv_add(c1, a), c2);
+        }
+    }
+}
+
+pub open spec fn es_arith_facts(e: Expression) -> bool {
+    match e {
+        Expression::BinOp { op, lhs, rhs } => match (*lhs, *rhs) {
+            (Expression::Const(c1), Expression::Const(c2)) => (op is IntAdd || op is IntSub) ==>
+                c1.wf() && c2.wf() && c1.w@ == c2.w@ && es_same(e, es_cv(op, c1, c2)),
+            (Expression::BinOp { op: iop, lhs: l, rhs: m }, Expression::Const(c2)) => {
+                &&& match *m {
+                        Expression::Const(c1) => {
+                            &&& (op is IntSub && iop is IntSub) ==> c1.wf() && c2.wf() && c1.w@ == c2.w@ && es_same(e, es_assoc_new(0, *l, c1, c2))
+                            &&& (op is IntAdd && iop is IntAdd) ==> c1.wf() && c2.wf() && c1.w@ == c2.w@ && es_same(e, es_assoc_new(1, *l, c1, c2))
+                        },
+                        _ => true,
+                    }
+                &&& match *l {
+                        Expression::Const(c1) => (op is IntAdd && iop is IntAdd) ==> c1.wf() && c2.wf() && c1.w@ == c2.w@ && es_same(e, es_assoc_new(2, *m, c1, c2)),
+                        _ => true,
+                    }
+            },
+            _ => true,
+        },
+        _ => true,
+    }
+}
+pub proof fn lemma_es_entry_arith(e: Expression)
+    requires es_wf(e),
+    ensures es_same(e, e), es_arith_facts(e),
+{
+    match e {
+        Expression::BinOp { op, lhs, rhs } => match (*lhs, *rhs) {
+            (Expression::Const(c1), Expression::Const(c2)) => {
+                if op is IntAdd || op is IntSub { lemma_es_rules_fold(op, c1, c2); }
+            },
+            (Expression::BinOp { op: iop, lhs: l, rhs: m }, Expression::Const(c2)) => {
+                match *m {
+                    Expression::Const(c1) => {
+                        if op is IntSub && iop is IntSub { assert(e == es_assoc_old(0, *l, c1, c2)); lemma_es_rules_assoc(0, *l, c1, c2); }
+                        if op is IntAdd && iop is IntAdd { assert(e == es_assoc_old(1, *l, c1, c2)); lemma_es_rules_assoc(1, *l, c1, c2); }
+                    },
+                    _ => {},
+                }
+                match *l {
+                    Expression::Const(c1) => {
+                        if op is IntAdd && iop is IntAdd { assert(e == es_assoc_old(2, *m, c1, c2)); lemma_es_rules_assoc(2, *m, c1, c2); }
+                    },
+                    _ => {},
+                }
+            },
+            _ => {},
+        },
+        _ => {},
+    }
+}
+
+// ---- unfolding of the unary nodes (one step, stated once) ---------------------------------------------------------------
+
+pub proof fn lemma_es_unfold_un(op: UnOpType, a: Expression, env: EsEnv)
+    ensures es_eval(es_mk_un(op, a), env) == (match es_eval(a, env) { Some(v) => es_un(op, v), None => None }),
+            es_wf(es_mk_un(op, a)) == (es_wf(a) && (op is BoolNegate ==> expr_bytes(a) == 1)),
+            expr_bytes(es_mk_un(op, a)) == (if op is FloatNaN { 1 } else { expr_bytes(a) }),
+{
+}
+pub proof fn lemma_es_unfold_cast(op: CastOpType, size: ByteSize, a: Expression, env: EsEnv)
+    ensures es_eval(es_mk_cast(op, size, a), env) == (match es_eval(a, env) { Some(v) => es_cast(op, v, size), None => None }),
+            es_wf(es_mk_cast(op, size, a)) == (es_wf(a) && 1 <= size.0 <= MAXBYTES() && ((op is IntZExt || op is IntSExt) ==> size.0 >= expr_bytes(a))),
+            expr_bytes(es_mk_cast(op, size, a)) == size.0,
+{
+}
+pub proof fn lemma_es_unfold_sub(low: ByteSize, size: ByteSize, a: Expression, env: EsEnv)
+    ensures es_eval(es_mk_sub(low, size, a), env) == (match es_eval(a, env) { Some(v) => es_sub(v, low, size), None => None }),
+            es_wf(es_mk_sub(low, size, a)) == (es_wf(a) && 1 <= size.0 && low.0 + size.0 <= expr_bytes(a)),
+            expr_bytes(es_mk_sub(low, size, a)) == size.0,
+{
+}
+
+// ---- (G) subpiece: values ----------------------------------------------------------------------------------------------------
+
+/// the whole value
+pub proof fn lemma_esv_sub_all(a: Bitvector)
+    requires a.wf(),
+    ensures pcode_subpiece(a, 0, a.w@) == a,
+{
+    lemma_p2_consts();
+    lemma_trunc_id(a.w@, a.u@ as int);
+}
+
+/// the low w bits of an extension of a w-bit value are that value
+pub proof fn lemma_esv_sub_ext(op: CastOpType, a: Bitvector, t: nat)
+    requires a.wf(), t >= a.w@, t <= MAXW(), op is IntZExt || op is IntSExt,
+    ensures pcode_cast(op, a, t) is Some, pcode_subpiece(pcode_cast(op, a, t)->Some_0, 0, a.w@) == a,
+{
+    let w = a.w@;
+    lemma_p2_consts();
+    lemma_p2(w); lemma_p2(t);
+    if op is IntZExt {
+        lemma_trunc_id(w, a.u@ as int);
+    } else {
+        let s = a.s();
+        let x = trunc(t, s) as int;
+        lemma_trunc_range(t, s);
+        let q = s / (p2(t) as int);
+        lemma_p2_mono(w, t);
+        let k = p2((t - w) as nat) as int;
+        assert(q * p2(t) == (q * k) * p2(w)) by (nonlinear_arith) requires p2(t) == p2(w) * k;
+        lemma_sval(w, a.u@);
+        let pw = p2(w) as int;
+        let qk = q * k;
+        assert(x == s - qk * pw);
+        assert((-qk) * pw == -(qk * pw)) by (nonlinear_arith);
+        assert((-qk - 1) * pw == -(qk * pw) - pw) by (nonlinear_arith);
+        if a.u@ < p2((w - 1) as nat) {
+            lemma_trunc_unique(w, x, -qk, a.u@ as int);
+        } else {
+            lemma_trunc_unique(w, x, -qk - 1, a.u@ as int);
+        }
+    }
+}
+
+/// the two halves of a concatenation
+pub proof fn lemma_esv_sub_piece(a: Bitvector, b: Bitvector)
+    requires a.wf(), b.wf(), a.w@ + b.w@ <= MAXW(),
+    ensures ({
+        let p = pcode_bin(BinOpType::Piece, a, b)->Some_0;
+        &&& pcode_subpiece(p, b.w@, a.w@) == a
+        &&& pcode_subpiece(p, 0, b.w@) == b
+    }),
+{
+    let x = (a.u@ * p2(b.w@) + b.u@) as int;
+    lemma_p2_consts();
+    lemma_p2(a.w@); lemma_p2(b.w@);
+    assert(a.u@ * p2(b.w@) == p2(b.w@) * a.u@) by (nonlinear_arith);
+    vstd::arithmetic::div_mod::lemma_fundamental_div_mod_converse(x, p2(b.w@) as int, a.u@ as int, b.u@ as int);
+    lemma_trunc_id(a.w@, a.u@ as int);
+    lemma_trunc_id(b.w@, b.u@ as int);
+    assert(x / 1 == x);
+}
+
+/// a subpiece of a subpiece: (l1, t1) first, then (l2, t2) with l2 + t2 <= t1
+pub proof fn lemma_esv_sub_sub(a: Bitvector, l1: nat, t1: nat, l2: nat, t2: nat)
+    requires l2 + t2 <= t1,
+    ensures pcode_subpiece(pcode_subpiece(a, l1, t1), l2, t2) == pcode_subpiece(a, l1 + l2, t2),
+{
+    let u = a.u@ as int;
+    let (p1, q2, pt2) = (p2(l1) as int, p2(l2) as int, p2(t2) as int);
+    lemma_p2(l1); lemma_p2(l2); lemma_p2(t1); lemma_p2(t2);
+    let y = u / p1;
+    vstd::arithmetic::div_mod::lemma_div_pos_is_pos(u, p1);
+    // t1 = l2 + (t1 - l2), t1 - l2 = t2 + rest
+    let k = p2((t1 - l2) as nat) as int;
+    let j = p2((t1 - l2 - t2) as nat) as int;
+    lemma_p2((t1 - l2) as nat); lemma_p2((t1 - l2 - t2) as nat);
+    lemma_p2_mono(l2, t1);
+    lemma_p2_mono(t2, (t1 - l2) as nat);
+    assert(p2(t1) == q2 * k);
+    assert(k == pt2 * j);
+    // (y % (q2 * k)) / q2 == (y / q2) % k
+    vstd::arithmetic::div_mod::lemma_mod_breakdown(y, q2, k);
+    let m = y % (q2 * k);
+    let z = y / q2;
+    vstd::arithmetic::div_mod::lemma_div_pos_is_pos(y, q2);
+    vstd::arithmetic::div_mod::lemma_mod_bound(z, k);
+    vstd::arithmetic::div_mod::lemma_mod_bound(y, q2);
+    vstd::arithmetic::div_mod::lemma_fundamental_div_mod_converse(m, q2, z % k, y % q2);
+    assert(m / q2 == z % k);
+    // ((z % (pt2 * j)) % pt2 == z % pt2
+    vstd::arithmetic::div_mod::lemma_mod_mod(z, pt2, j);
+    // z == u / (p1 * q2) == u / p2(l1 + l2)
+    vstd::arithmetic::div_mod::lemma_div_denominator(u, p1, q2);
+    vstd::arithmetic::power2::lemma_pow2_adds(l1, l2);
+}
+
+// ---- (H) extensions, (I) unary operations: values ---------------------------------------------------------------------------
+
+pub proof fn lemma_esv_ext_id(op: CastOpType, a: Bitvector)
+    requires a.wf(), op is IntZExt || op is IntSExt,
+    ensures pcode_cast(op, a, a.w@) == Some(a),
+{
+    lemma_sval(a.w@, a.u@);
+}
+
+pub proof fn lemma_esv_ext_ext(op: CastOpType, a: Bitvector, t1: nat, t2: nat)
+    requires a.wf(), a.w@ <= t1 <= t2, t2 <= MAXW(), op is IntZExt || op is IntSExt,
+    ensures ({
+        let m = pcode_cast(op, a, t1)->Some_0;
+        m.wf() && m.w@ == t1 && pcode_cast(op, m, t2) == pcode_cast(op, a, t2)
+    }),
+{
+    let w = a.w@;
+    lemma_es_cast_wf(op, a, t1);
+    if op is IntSExt {
+        // the signed value of a w-bit vector lies in the signed range of t1 bits
+        lemma_sval(w, a.u@);
+        lemma_p2_mono((w - 1) as nat, (t1 - 1) as nat);
+        lemma_trunc_sval(t1, a.s());
+    }
+}
+
+pub proof fn lemma_esv_un_twice(op: UnOpType, a: Bitvector)
+    requires wellsized_un(op, a), op is IntNegate || op is Int2Comp || op is BoolNegate,
+    ensures ({
+        let b = pcode_un(op, a)->Some_0;
+        wellsized_un(op, b) && pcode_un(op, b) == Some(a)
+    }),
+{
+    lemma_es_un_wf(op, a);
+    lemma_p2(a.w@);
+    lemma_trunc_neg_case(a.w@, a.u@);
+    lemma_trunc_neg_case(a.w@, trunc(a.w@, -(a.u@ as int)));
+}
+
+pub open spec fn es_is_cmp(op: BinOpType) -> bool {
+    op is IntEqual || op is IntNotEqual || op is IntLess || op is IntSLess || op is IntLessEqual || op is IntSLessEqual
+}
+/// the comparison c' with  not (l c r)  <==>  r c' l
+pub open spec fn es_negcmp(op: BinOpType) -> BinOpType {
+    match op {
+        BinOpType::IntEqual => BinOpType::IntNotEqual,
+        BinOpType::IntNotEqual => BinOpType::IntEqual,
+        BinOpType::IntLess => BinOpType::IntLessEqual,
+        BinOpType::IntSLess => BinOpType::IntSLessEqual,
+        BinOpType::IntLessEqual => BinOpType::IntLess,
+        BinOpType::IntSLessEqual => BinOpType::IntSLess,
+        _ => op,
+    }
+}
+pub proof fn lemma_esv_neg_cmp(op: BinOpType, a: Bitvector, b: Bitvector)
+    requires a.wf(), b.wf(), a.w@ == b.w@, es_is_cmp(op),
+    ensures es_bin(op, a, b) is Some, es_un(UnOpType::BoolNegate, es_bin(op, a, b)->Some_0) == es_bin(es_negcmp(op), b, a),
+{
+    lemma_esv_cmp(a, b); lemma_esv_cmp(b, a);
+    lemma_es_b2bv(true); lemma_es_b2bv(false);
+}
+
+// ---- the rewrites below a Subpiece / Cast / UnOp node whose argument is `a`; `o` is the expression they are compared with ----
+
+pub open spec fn es_sub_targets(o: Expression, low: ByteSize, size: ByteSize, a: Expression) -> bool {
+    &&& es_same(o, es_mk_sub(low, size, a))
+    &&& (low.0 == 0 && size.0 == expr_bytes(a)) ==> es_same(o, a)
+    &&& match a {
+            Expression::Cast { op, size: cs, arg: inner } =>
+                ((op is IntZExt || op is IntSExt) && low.0 == 0 && size.0 == expr_bytes(*inner)) ==> es_same(o, *inner),
+            Expression::BinOp { op, lhs, rhs } => op is Piece ==> {
+                &&& (low.0 == expr_bytes(*rhs) && size.0 == expr_bytes(*lhs)) ==> es_same(o, *lhs)
+                &&& (low.0 == 0 && size.0 == expr_bytes(*rhs)) ==> es_same(o, *rhs)
+            },
+            Expression::Subpiece { low_byte: il, size: isz, arg: inner } =>
+                low.0 + il.0 <= MAXBYTES() && es_same(o, es_mk_sub(ByteSize((low.0 + il.0) as u64), size, *inner)),
+            _ => true,
+        }
+}
+/// what the exec code needs to call `bytesize()` on the argument and its children
+pub open spec fn es_kids_ok(a: Expression) -> bool {
+    &&& expr_ok(a) && 1 <= expr_bytes(a) <= MAXBYTES()
+    &&& match a {
+            Expression::Cast { op, size, arg } => expr_ok(*arg) && 1 <= expr_bytes(*arg) <= MAXBYTES(),
+            Expression::BinOp { op, lhs, rhs } => expr_ok(*lhs) && 1 <= expr_bytes(*lhs) <= MAXBYTES() && expr_ok(*rhs) && 1 <= expr_bytes(*rhs) <= MAXBYTES(),
+            Expression::Subpiece { low_byte, size, arg } => expr_ok(*arg) && 1 <= expr_bytes(*arg) <= MAXBYTES(),
+            Expression::UnOp { op, arg } => expr_ok(*arg) && 1 <= expr_bytes(*arg) <= MAXBYTES(),
+            _ => true,
+        }
+}
+pub proof fn lemma_es_kids_ok(a: Expression)
+    requires es_wf(a),
+    ensures es_kids_ok(a),
+{
+    lemma_es_wf_bytes(a);
+    match a {
+        Expression::Cast { op, size, arg } => { lemma_es_wf_bytes(*arg); },
+        Expression::BinOp { op, lhs, rhs } => { lemma_es_wf_bytes(*lhs); lemma_es_wf_bytes(*rhs); },
+        Expression::Subpiece { low_byte, size, arg } => { lemma_es_wf_bytes(*arg); },
+        Expression::UnOp { op, arg } => { lemma_es_wf_bytes(*arg); },
+        _ => {},
+    }
+}
+
+pub proof fn lemma_es_rule_sub_all(low: ByteSize, size: ByteSize, a: Expression)
+    requires es_wf(es_mk_sub(low, size, a)), low.0 == 0, size.0 == expr_bytes(a),
+    ensures es_same(es_mk_sub(low, size, a), a),
+{
+    hide(pcode_bin); hide(pcode_cast); hide(pcode_un);
+    let m = es_mk_sub(low, size, a);
+    lemma_es_unfold_sub(low, size, a, |v: Variable| bv(8, 0));
+    assert forall |env: EsEnv| #[trigger] es_val_kept(m, a, env) by {
+        lemma_es_unfold_sub(low, size, a, env);
+        if es_eval(m, env) is Some { lemma_es_eval_wf(a, env); lemma_esv_sub_all(es_eval(a, env)->Some_0); }
+    }
+}
+
+pub proof fn lemma_es_rule_sub_ext(low: ByteSize, size: ByteSize, op: CastOpType, cs: ByteSize, inner: Expression)
+    requires es_wf(es_mk_sub(low, size, es_mk_cast(op, cs, inner))), op is IntZExt || op is IntSExt, low.0 == 0, size.0 == expr_bytes(inner),
+    ensures es_same(es_mk_sub(low, size, es_mk_cast(op, cs, inner)), inner),
+{
+    hide(pcode_bin); hide(pcode_un);
+    let a = es_mk_cast(op, cs, inner);
+    let m = es_mk_sub(low, size, a);
+    let e0 = |v: Variable| bv(8, 0);
+    lemma_es_unfold_sub(low, size, a, e0); lemma_es_unfold_cast(op, cs, inner, e0);
+    assert forall |env: EsEnv| #[trigger] es_val_kept(m, inner, env) by {
+        lemma_es_unfold_sub(low, size, a, env); lemma_es_unfold_cast(op, cs, inner, env);
+        if es_eval(m, env) is Some {
+            lemma_es_eval_wf(inner, env);
+            lemma_esv_sub_ext(op, es_eval(inner, env)->Some_0, (cs.0 * 8) as nat);
+        }
+    }
+}
+
+pub proof fn lemma_es_rule_sub_piece(low: ByteSize, size: ByteSize, l: Expression, r: Expression)
+    requires es_wf(es_mk_sub(low, size, es_mk_bin(BinOpType::Piece, l, r))),
+    ensures
+        (low.0 == expr_bytes(r) && size.0 == expr_bytes(l)) ==> es_same(es_mk_sub(low, size, es_mk_bin(BinOpType::Piece, l, r)), l),
+        (low.0 == 0 && size.0 == expr_bytes(r)) ==> es_same(es_mk_sub(low, size, es_mk_bin(BinOpType::Piece, l, r)), r),
+{
+    hide(pcode_cast); hide(pcode_un);
+    let a = es_mk_bin(BinOpType::Piece, l, r);
+    let m = es_mk_sub(low, size, a);
+    let e0 = |v: Variable| bv(8, 0);
+    lemma_es_unfold_sub(low, size, a, e0); lemma_es_unfold_bin(BinOpType::Piece, l, r, e0);
+    lemma_es_wf_bytes(l); lemma_es_wf_bytes(r);
+    if low.0 == expr_bytes(r) && size.0 == expr_bytes(l) {
+        assert forall |env: EsEnv| #[trigger] es_val_kept(m, l, env) by {
+            lemma_es_unfold_sub(low, size, a, env); lemma_es_unfold_bin(BinOpType::Piece, l, r, env);
+            if es_eval(m, env) is Some {
+                lemma_es_eval_wf(l, env); lemma_es_eval_wf(r, env);
+                lemma_esv_sub_piece(es_eval(l, env)->Some_0, es_eval(r, env)->Some_0);
+            }
+        }
+    }
+    if low.0 == 0 && size.0 == expr_bytes(r) {
+        assert forall |env: EsEnv| #[trigger] es_val_kept(m, r, env) by {
+            lemma_es_unfold_sub(low, size, a, env); lemma_es_unfold_bin(BinOpType::Piece, l, r, env);
+            if es_eval(m, env) is Some {
+                lemma_es_eval_wf(l, env); lemma_es_eval_wf(r, env);
+                lemma_esv_sub_piece(es_eval(l, env)->Some_0, es_eval(r, env)->Some_0);
+            }
+        }
+    }
+}
+
+pub proof fn lemma_es_rule_sub_sub(low: ByteSize, size: ByteSize, il: ByteSize, isz: ByteSize, inner: Expression)
+    requires es_wf(es_mk_sub(low, size, es_mk_sub(il, isz, inner))),
+    ensures low.0 + il.0 <= MAXBYTES(),
+        es_same(es_mk_sub(low, size, es_mk_sub(il, isz, inner)), es_mk_sub(ByteSize((low.0 + il.0) as u64), size, inner)),
+{
+    hide(pcode_bin); hide(pcode_cast); hide(pcode_un);
+    let a = es_mk_sub(il, isz, inner);
+    let m = es_mk_sub(low, size, a);
+    let nl = ByteSize((low.0 + il.0) as u64);
+    let n = es_mk_sub(nl, size, inner);
+    let e0 = |v: Variable| bv(8, 0);
+    lemma_es_unfold_sub(low, size, a, e0); lemma_es_unfold_sub(il, isz, inner, e0); lemma_es_unfold_sub(nl, size, inner, e0);
+    lemma_es_wf_bytes(inner);
+    assert forall |env: EsEnv| #[trigger] es_val_kept(m, n, env) by {
+        lemma_es_unfold_sub(low, size, a, env); lemma_es_unfold_sub(il, isz, inner, env); lemma_es_unfold_sub(nl, size, inner, env);
+        if es_eval(m, env) is Some {
+            lemma_es_eval_wf(inner, env);
+            lemma_esv_sub_sub(es_eval(inner, env)->Some_0, (il.0 * 8) as nat, (isz.0 * 8) as nat, (low.0 * 8) as nat, (size.0 * 8) as nat);
+        }
+    }
+}
+
+pub proof fn lemma_es_rules_sub(low: ByteSize, size: ByteSize, a: Expression)
+    requires es_wf(es_mk_sub(low, size, a)),
+    ensures es_sub_targets(es_mk_sub(low, size, a), low, size, a),
+{
+    hide(es_eval); hide(pcode_bin); hide(pcode_cast); hide(pcode_un);
+    lemma_es_same_refl(es_mk_sub(low, size, a));
+    if low.0 == 0 && size.0 == expr_bytes(a) { lemma_es_rule_sub_all(low, size, a); }
+    match a {
+        Expression::Cast { op, size: cs, arg: inner } => {
+            if (op is IntZExt || op is IntSExt) && low.0 == 0 && size.0 == expr_bytes(*inner) { lemma_es_rule_sub_ext(low, size, op, cs, *inner); }
+        },
+        Expression::BinOp { op, lhs, rhs } => {
+            if op is Piece { lemma_es_rule_sub_piece(low, size, *lhs, *rhs); }
+        },
+        Expression::Subpiece { low_byte: il, size: isz, arg: inner } => {
+            lemma_es_rule_sub_sub(low, size, il, isz, *inner);
+        },
+        _ => {},
+    }
+}
+
+pub proof fn lemma_es_lift_sub(o: Expression, low: ByteSize, size: ByteSize, a: Expression)
+    requires es_same(o, es_mk_sub(low, size, a)), es_sub_targets(es_mk_sub(low, size, a), low, size, a),
+    ensures es_sub_targets(o, low, size, a),
+{
+    broadcast use lemma_es_same_trans_b;
+}
+
+pub open spec fn es_cast_targets(o: Expression, op: CastOpType, size: ByteSize, a: Expression) -> bool {
+    &&& es_same(o, es_mk_cast(op, size, a))
+    &&& ((op is IntSExt || op is IntZExt) && size.0 == expr_bytes(a)) ==> es_same(o, a)
+    &&& match a {
+            Expression::Cast { op: iop, size: isz, arg: inner } =>
+                ((op is IntSExt || op is IntZExt) && op == iop) ==> es_same(o, es_mk_cast(op, size, *inner)),
+            _ => true,
+        }
+}
+
+pub proof fn lemma_es_rule_cast_id(op: CastOpType, size: ByteSize, a: Expression)
+    requires es_wf(es_mk_cast(op, size, a)), op is IntSExt || op is IntZExt, size.0 == expr_bytes(a),
+    ensures es_same(es_mk_cast(op, size, a), a),
+{
+    hide(pcode_bin); hide(pcode_un);
+    let m = es_mk_cast(op, size, a);
+    lemma_es_unfold_cast(op, size, a, |v: Variable| bv(8, 0));
+    assert forall |env: EsEnv| #[trigger] es_val_kept(m, a, env) by {
+        lemma_es_unfold_cast(op, size, a, env);
+        if es_eval(m, env) is Some { lemma_es_eval_wf(a, env); lemma_esv_ext_id(op, es_eval(a, env)->Some_0); }
+    }
+}
+
+pub proof fn lemma_es_rule_cast_cast(op: CastOpType, size: ByteSize, isz: ByteSize, inner: Expression)
+    requires es_wf(es_mk_cast(op, size, es_mk_cast(op, isz, inner))), op is IntSExt || op is IntZExt,
+    ensures es_same(es_mk_cast(op, size, es_mk_cast(op, isz, inner)), es_mk_cast(op, size, inner)),
+{
+    hide(pcode_bin); hide(pcode_un);
+    let a = es_mk_cast(op, isz, inner);
+    let m = es_mk_cast(op, size, a);
+    let n = es_mk_cast(op, size, inner);
+    let e0 = |v: Variable| bv(8, 0);
+    lemma_es_unfold_cast(op, size, a, e0); lemma_es_unfold_cast(op, isz, inner, e0); lemma_es_unfold_cast(op, size, inner, e0);
+    assert forall |env: EsEnv| #[trigger] es_val_kept(m, n, env) by {
+        lemma_es_unfold_cast(op, size, a, env); lemma_es_unfold_cast(op, isz, inner, env); lemma_es_unfold_cast(op, size, inner, env);
+        if es_eval(m, env) is Some {
+            lemma_es_eval_wf(inner, env);
+            lemma_esv_ext_ext(op, es_eval(inner, env)->Some_0, (isz.0 * 8) as nat, (size.0 * 8) as nat);
+        }
+    }
+}
+
+pub proof fn lemma_es_rules_cast(op: CastOpType, size: ByteSize, a: Expression)
+    requires es_wf(es_mk_cast(op, size, a)),
+    ensures es_cast_targets(es_mk_cast(op, size, a), op, size, a),
+{
+    hide(es_eval); hide(pcode_bin); hide(pcode_cast); hide(pcode_un);
+    lemma_es_same_refl(es_mk_cast(op, size, a));
+    if (op is IntSExt || op is IntZExt) && size.0 == expr_bytes(a) { lemma_es_rule_cast_id(op, size, a); }
+    match a {
+        Expression::Cast { op: iop, size: isz, arg: inner } => {
+            if (op is IntSExt || op is IntZExt) && op == iop { lemma_es_rule_cast_cast(op, size, isz, *inner); }
+        },
+        _ => {},
+    }
+}
+
+pub proof fn lemma_es_lift_cast(o: Expression, op: CastOpType, size: ByteSize, a: Expression)
+    requires es_same(o, es_mk_cast(op, size, a)), es_cast_targets(es_mk_cast(op, size, a), op, size, a),
+    ensures es_cast_targets(o, op, size, a),
+{
+    broadcast use lemma_es_same_trans_b;
+}
+
+pub open spec fn es_un_targets(o: Expression, op: UnOpType, a: Expression) -> bool {
+    &&& es_same(o, es_mk_un(op, a))
+    &&& match a {
+            Expression::UnOp { op: iop, arg: inner } =>
+                (op == iop && (op is IntNegate || op is BoolNegate || op is Int2Comp)) ==> es_same(o, *inner),
+            Expression::BinOp { op: cop, lhs, rhs } =>
+                (op is BoolNegate && es_is_cmp(cop)) ==> es_same(o, es_mk_bin(es_negcmp(cop), *rhs, *lhs)),
+            _ => true,
+        }
+}
+
+pub proof fn lemma_es_rule_un_un(op: UnOpType, inner: Expression)
+    requires es_wf(es_mk_un(op, es_mk_un(op, inner))), op is IntNegate || op is BoolNegate || op is Int2Comp,
+    ensures es_same(es_mk_un(op, es_mk_un(op, inner)), inner),
+{
+    hide(pcode_bin); hide(pcode_cast);
+    let a = es_mk_un(op, inner);
+    let m = es_mk_un(op, a);
+    let e0 = |v: Variable| bv(8, 0);
+    lemma_es_unfold_un(op, a, e0); lemma_es_unfold_un(op, inner, e0);
+    assert forall |env: EsEnv| #[trigger] es_val_kept(m, inner, env) by {
+        lemma_es_unfold_un(op, a, env); lemma_es_unfold_un(op, inner, env);
+        if es_eval(m, env) is Some {
+            lemma_es_eval_wf(inner, env);
+            lemma_esv_un_twice(op, es_eval(inner, env)->Some_0);
+        }
+    }
+}
+
+pub proof fn lemma_es_rule_neg_cmp(cop: BinOpType, l: Expression, r: Expression)
+    requires es_wf(es_mk_un(UnOpType::BoolNegate, es_mk_bin(cop, l, r))), es_is_cmp(cop),
+    ensures es_same(es_mk_un(UnOpType::BoolNegate, es_mk_bin(cop, l, r)), es_mk_bin(es_negcmp(cop), r, l)),
+{
+    hide(pcode_bin); hide(pcode_cast); hide(pcode_un);
+    let a = es_mk_bin(cop, l, r);
+    let m = es_mk_un(UnOpType::BoolNegate, a);
+    let n = es_mk_bin(es_negcmp(cop), r, l);
+    let e0 = |v: Variable| bv(8, 0);
+    lemma_es_unfold_un(UnOpType::BoolNegate, a, e0); lemma_es_unfold_bin(cop, l, r, e0); lemma_es_unfold_bin(es_negcmp(cop), r, l, e0);
+    assert forall |env: EsEnv| #[trigger] es_val_kept(m, n, env) by {
+        lemma_es_unfold_un(UnOpType::BoolNegate, a, env); lemma_es_unfold_bin(cop, l, r, env); lemma_es_unfold_bin(es_negcmp(cop), r, l, env);
+        if es_eval(m, env) is Some {
+            lemma_es_eval_wf(l, env); lemma_es_eval_wf(r, env);
+            lemma_esv_neg_cmp(cop, es_eval(l, env)->Some_0, es_eval(r, env)->Some_0);
+        }
+    }
+}
+
+pub proof fn lemma_es_rules_un(op: UnOpType, a: Expression)
+    requires es_wf(es_mk_un(op, a)),
+    ensures es_un_targets(es_mk_un(op, a), op, a),
+{
+    hide(es_eval); hide(pcode_bin); hide(pcode_cast); hide(pcode_un);
+    lemma_es_same_refl(es_mk_un(op, a));
+    match a {
+        Expression::UnOp { op: iop, arg: inner } => {
+            if op == iop && (op is IntNegate || op is BoolNegate || op is Int2Comp) { lemma_es_rule_un_un(op, *inner); }
+        },
+        Expression::BinOp { op: cop, lhs, rhs } => {
+            if op is BoolNegate && es_is_cmp(cop) { lemma_es_rule_neg_cmp(cop, *lhs, *rhs); }
+        },
+        _ => {},
+    }
+}
+
+pub proof fn lemma_es_lift_un(o: Expression, op: UnOpType, a: Expression)
+    requires es_same(o, es_mk_un(op, a)), es_un_targets(es_mk_un(op, a), op, a),
+    ensures es_un_targets(o, op, a),
+{
+    broadcast use lemma_es_same_trans_b;
+}
+
+// ---- entry lemma of substitute_trivial_operations: the facts hold for EVERY rewritten argument a1 with es_same(a0, a1) ----
+
+pub open spec fn es_main_facts(e: Expression) -> bool {
+    match e {
+        Expression::Subpiece { low_byte, size, arg } =>
+            forall |a1: Expression| #[trigger] es_same(*arg, a1) ==> es_kids_ok(a1) && es_sub_targets(e, low_byte, size, a1),
+        Expression::Cast { op, size, arg } =>
+            forall |a1: Expression| #[trigger] es_same(*arg, a1) ==> es_kids_ok(a1) && es_cast_targets(e, op, size, a1),
+        Expression::UnOp { op, arg } =>
+            forall |a1: Expression| #[trigger] es_same(*arg, a1) ==> es_kids_ok(a1) && es_un_targets(e, op, a1),
+        Expression::BinOp { op, lhs, rhs } =>
+            forall |l1: Expression, r1: Expression| #[trigger] es_same(*lhs, l1) && #[trigger] es_same(*rhs, r1) ==> es_same(e, es_mk_bin(op, l1, r1)),
+        _ => true,
+    }
+}
+
+pub proof fn lemma_es_entry_main(e: Expression)
+    requires es_wf(e),
+    ensures es_same(e, e), es_main_facts(e),
+        match e {
+            Expression::Subpiece { low_byte, size, arg } => es_wf(*arg),
+            Expression::Cast { op, size, arg } => es_wf(*arg),
+            Expression::UnOp { op, arg } => es_wf(*arg),
+            Expression::BinOp { op, lhs, rhs } => es_wf(*lhs) && es_wf(*rhs),
+            _ => true,
+        },
+{
+    hide(es_eval); hide(pcode_bin); hide(pcode_cast); hide(pcode_un);
+    match e {
+        Expression::Subpiece { low_byte, size, arg } => {
+            assert forall |a1: Expression| #[trigger] es_same(*arg, a1) implies es_kids_ok(a1) && es_sub_targets(e, low_byte, size, a1) by {
+                lemma_es_cong_sub(low_byte, size, *arg, a1);
+                lemma_es_kids_ok(a1);
+                lemma_es_rules_sub(low_byte, size, a1);
+                lemma_es_lift_sub(e, low_byte, size, a1);
+            }
+        },
+        Expression::Cast { op, size, arg } => {
+            assert forall |a1: Expression| #[trigger] es_same(*arg, a1) implies es_kids_ok(a1) && es_cast_targets(e, op, size, a1) by {
+                lemma_es_cong_cast(op, size, *arg, a1);
+                lemma_es_kids_ok(a1);
+                lemma_es_rules_cast(op, size, a1);
+                lemma_es_lift_cast(e, op, size, a1);
+            }
+        },
+        Expression::UnOp { op, arg } => {
+            assert forall |a1: Expression| #[trigger] es_same(*arg, a1) implies es_kids_ok(a1) && es_un_targets(e, op, a1) by {
+                lemma_es_cong_un(op, *arg, a1);
+                lemma_es_kids_ok(a1);
+                lemma_es_rules_un(op, a1);
+                lemma_es_lift_un(e, op, a1);
+            }
+        },
+        Expression::BinOp { op, lhs, rhs } => {
+            assert forall |l1: Expression, r1: Expression| #[trigger] es_same(*lhs, l1) && #[trigger] es_same(*rhs, r1) implies es_same(e, es_mk_bin(op, l1, r1)) by {
+                lemma_es_cong_bin(op, *lhs, *rhs, l1, r1);
             }
         },
         _ => {},
